@@ -111,6 +111,39 @@ theorem nodup_append_fresh {α : Type} (f : α → Nat) (l : List α) (x : α)
   rcases List.mem_map.1 ha with ⟨e, he, rfl⟩
   exact hx e he
 
+/-- the guard of `reReq` spelled out -/
+theorem reReq_guard (s : St) (id : Nat) :
+    (decide (id ≤ s.next) && !(s.layerReg.any (fun e => e.id == id)) && !(s.appReg.any (fun e => e.id == id))) = true ↔
+    (id ≤ s.next ∧ (∀ e ∈ s.layerReg, e.id ≠ id) ∧ (∀ e ∈ s.appReg, e.id ≠ id)) := by
+  simp only [Bool.and_eq_true, decide_eq_true_eq, Bool.not_eq_true', List.any_eq_false, beq_iff_eq,
+    and_assoc, ne_eq]
+
+/-- `reReq` is either a no-op or (when the guard holds) registers the id again -/
+theorem step_reReq (s : St) (id : Nat) (k : Kind) (a b : Bool) :
+    (step s (.reReq id k a b) = (s, [])) ∨
+    ((id ≤ s.next ∧ (∀ e ∈ s.layerReg, e.id ≠ id) ∧ (∀ e ∈ s.appReg, e.id ≠ id)) ∧
+      step s (.reReq id k a b) =
+        ((if k.registers then
+            { s with appReg := s.appReg ++ [{ id := id, succ := a, err := b }],
+                     layerReg := s.layerReg ++ [{ layer := k.owner, id := id, succ := k.succ, err := k.err }] }
+          else { s with appReg := s.appReg ++ [{ id := id, succ := a, err := b }] }), [.sent id])) := by
+  by_cases hg : (decide (id ≤ s.next) && !(s.layerReg.any (fun e => e.id == id)) &&
+      !(s.appReg.any (fun e => e.id == id))) = true
+  · refine Or.inr ⟨(reReq_guard s id).1 hg, ?_⟩
+    simp only [step, hg, if_true]
+  · refine Or.inl ?_
+    simp only [step, hg, if_false, Bool.false_eq_true]
+
+theorem step_reReq_of_guard (s : St) (id : Nat) (k : Kind) (a b : Bool)
+    (hid : id ≤ s.next) (hl : ∀ e ∈ s.layerReg, e.id ≠ id) (ha : ∀ e ∈ s.appReg, e.id ≠ id) :
+    step s (.reReq id k a b) =
+        ((if k.registers then
+            { s with appReg := s.appReg ++ [{ id := id, succ := a, err := b }],
+                     layerReg := s.layerReg ++ [{ layer := k.owner, id := id, succ := k.succ, err := k.err }] }
+          else { s with appReg := s.appReg ++ [{ id := id, succ := a, err := b }] }), [.sent id]) := by
+  have hg := (reReq_guard s id).2 ⟨hid, hl, ha⟩
+  simp only [step, hg, if_true]
+
 /-! ### theorems -/
 
 theorem inv_init : Inv init := by
@@ -154,6 +187,25 @@ theorem inv_step (s : St) (h : Inv s) (op : Op) : Inv (step s op).1 := by
         have := h1 e he; simp only; omega
       · intro e he
         have := h2 e he; simp only; omega
+  | reReq id k a b =>
+    rcases step_reReq s id k a b with e | ⟨⟨hle, hl, ha⟩, e⟩ <;> rw [e]
+    · exact ⟨h1, h2, h3, h4⟩
+    · have hA : ((s.appReg ++ [({ id := id, succ := a, err := b } : AppEntry)]).map AppEntry.id).Nodup :=
+        nodup_append_fresh _ _ _ h4 (fun e he => ha e he)
+      have hA' : ∀ e ∈ s.appReg ++ [({ id := id, succ := a, err := b } : AppEntry)], e.id ≤ s.next := by
+        intro e he
+        rcases List.mem_append.1 he with he | he
+        · exact h2 e he
+        · simp only [List.mem_singleton] at he; subst he; exact hle
+      simp only
+      split
+      · refine ⟨?_, hA', ?_, hA⟩
+        · intro e he
+          rcases List.mem_append.1 he with he | he
+          · exact h1 e he
+          · simp only [List.mem_singleton] at he; subst he; exact hle
+        · exact nodup_append_fresh _ _ _ h3 (fun e he => hl e he)
+      · exact ⟨h1, hA', h3, hA⟩
   | deliver id r =>
     unfold Inv
     rw [deliver_next]
@@ -183,6 +235,10 @@ theorem next_mono_step (s : St) (op : Op) : s.next ≤ (step s op).1.next := by
   cases op with
   | appReq k a b => simp only [step]; split <;> simp
   | libReq k => simp only [step]; split <;> simp
+  | reReq id k a b =>
+    rcases step_reReq s id k a b with e | ⟨_, e⟩ <;> rw [e]
+    · exact Nat.le_refl _
+    · simp only; split <;> exact Nat.le_refl _
   | deliver id r => rw [deliver_next]; exact Nat.le_refl _
 
 theorem next_mono_run (s : St) (ops : List Op) : s.next ≤ (run s ops).1.next := by
@@ -218,7 +274,7 @@ theorem filter_append_fresh {α : Type} (f : α → Nat) (l : List α) (x : α) 
     List.filter_nil, List.append_nil]
 
 theorem other_ops_keep_entries (s : St) (h : Inv s) (id : Nat) (hid : id ≤ s.next) (op : Op)
-    (hop : ∀ r, op ≠ .deliver id r) :
+    (hop : ∀ r, op ≠ .deliver id r) (hre : ∀ k a b, op ≠ .reReq id k a b) :
     (step s op).1.layerReg.filter (fun e => e.id == id) = s.layerReg.filter (fun e => e.id == id) ∧
     (step s op).1.appReg.filter (fun e => e.id == id) = s.appReg.filter (fun e => e.id == id) := by
   have _ := h
@@ -234,6 +290,15 @@ theorem other_ops_keep_entries (s : St) (h : Inv s) (id : Nat) (hid : id ≤ s.n
     split
     · exact ⟨filter_append_fresh LayerEntry.id _ _ id (by simp only; omega), rfl⟩
     · exact ⟨rfl, rfl⟩
+  | reReq id' k a b =>
+    have hne : id' ≠ id := by
+      intro e; subst e; exact hre k a b rfl
+    rcases step_reReq s id' k a b with e | ⟨_, e⟩ <;> rw [e]
+    · exact ⟨rfl, rfl⟩
+    · simp only
+      split
+      · exact ⟨filter_append_fresh LayerEntry.id _ _ id hne, filter_append_fresh AppEntry.id _ _ id hne⟩
+      · exact ⟨rfl, filter_append_fresh AppEntry.id _ _ id hne⟩
   | deliver id' r =>
     have hne : id' ≠ id := by
       intro e; subst e; exact hop r rfl
@@ -244,7 +309,7 @@ theorem other_ops_keep_entries (s : St) (h : Inv s) (id : Nat) (hid : id ≤ s.n
       exact filter_keep AppEntry.id _ id id' hne
 
 theorem other_ops_keep_entries_run (s : St) (h : Inv s) (id : Nat) (hid : id ≤ s.next) (ops : List Op)
-    (hop : ∀ op ∈ ops, ∀ r, op ≠ .deliver id r) :
+    (hop : ∀ op ∈ ops, ∀ r, op ≠ .deliver id r) (hre : ∀ op ∈ ops, ∀ k a b, op ≠ .reReq id k a b) :
     (run s ops).1.layerReg.filter (fun e => e.id == id) = s.layerReg.filter (fun e => e.id == id) ∧
     (run s ops).1.appReg.filter (fun e => e.id == id) = s.appReg.filter (fun e => e.id == id) := by
   induction ops generalizing s with
@@ -252,8 +317,9 @@ theorem other_ops_keep_entries_run (s : St) (h : Inv s) (id : Nat) (hid : id ≤
   | cons op ops ih =>
     simp only [run]
     have h1 := other_ops_keep_entries s h id hid op (hop op List.mem_cons_self)
+      (hre op List.mem_cons_self)
     have h2 := ih (step s op).1 (inv_step s h op) (Nat.le_trans hid (next_mono_step s op))
-      (fun o ho => hop o (List.mem_cons_of_mem _ ho))
+      (fun o ho => hop o (List.mem_cons_of_mem _ ho)) (fun o ho => hre o (List.mem_cons_of_mem _ ho))
     exact ⟨h2.1.trans h1.1, h2.2.trans h1.2⟩
 
 theorem mem_filter_bne {α : Type} (f : α → Nat) (l : List α) (id : Nat) :
@@ -288,7 +354,8 @@ theorem complete_fields (k : Kind) (hk : k.complete = true) :
   exact ⟨hk.1.1, hk.1.2, hk.2⟩
 
 theorem app_request_reply (pre post : List Op) (k : Kind) (hk : k.complete = true) (a b r : Bool)
-    (hpost : ∀ op ∈ post, ∀ r', op ≠ .deliver ((run init pre).1.next + 1) r') :
+    (hpost : ∀ op ∈ post, ∀ r', op ≠ .deliver ((run init pre).1.next + 1) r')
+    (hre : ∀ op ∈ post, ∀ k' a' b', op ≠ .reReq ((run init pre).1.next + 1) k' a' b') :
     let id := (run init pre).1.next + 1
     let s := (run (step (run init pre).1 (.appReq k a b)).1 post).1
     (step s (.deliver id r)).2 =
@@ -312,7 +379,7 @@ theorem app_request_reply (pre post : List Op) (k : Kind) (hk : k.complete = tru
     simp [id]
   have hnext : id ≤ (step (run init pre).1 (.appReq k a b)).1.next := by
     simp only [step, kr, if_true]; exact Nat.le_refl _
-  have hkeep := other_ops_keep_entries_run _ hI2 id hnext post hpost
+  have hkeep := other_ops_keep_entries_run _ hI2 id hnext post hpost hre
   have hL : s.layerReg.find? (fun e => e.id == id) = some ⟨k.owner, id, true, true⟩ :=
     find_of_filter _ _ _ (hkeep.1.trans hL0)
   have hA : s.appReg.find? (fun e => e.id == id) = some ⟨id, a, b⟩ :=
@@ -328,7 +395,8 @@ theorem replay_invokes_nothing (s : St) (id : Nat) (r r' : Bool) :
   fun h => deliver_unknown _ id r' h
 
 theorem lib_request_reply (pre post : List Op) (k : Kind) (hk : k.complete = true) (r : Bool)
-    (hpost : ∀ op ∈ post, ∀ r', op ≠ .deliver ((run init pre).1.next + 1) r') :
+    (hpost : ∀ op ∈ post, ∀ r', op ≠ .deliver ((run init pre).1.next + 1) r')
+    (hre : ∀ op ∈ post, ∀ k' a' b', op ≠ .reReq ((run init pre).1.next + 1) k' a' b') :
     let id := (run init pre).1.next + 1
     let s := (run (step (run init pre).1 (.libReq k)).1 post).1
     (step s (.deliver id r)).2 = [.layerCb k.owner id r, .appEntity id] := by
@@ -347,11 +415,39 @@ theorem lib_request_reply (pre post : List Op) (k : Kind) (hk : k.complete = tru
     exact filter_fresh AppEntry.id _ _ hfr.2.2.2
   have hnext : id ≤ (step (run init pre).1 (.libReq k)).1.next := by
     simp only [step, kr, if_true]; exact Nat.le_refl _
-  have hkeep := other_ops_keep_entries_run _ hI2 id hnext post hpost
+  have hkeep := other_ops_keep_entries_run _ hI2 id hnext post hpost hre
   have hL : s.layerReg.find? (fun e => e.id == id) = some ⟨k.owner, id, true, true⟩ :=
     find_of_filter _ _ _ (hkeep.1.trans hL0)
   have hA : s.appReg.find? (fun e => e.id == id) = none :=
     find_none_of_filter _ _ (hkeep.2.trans hA0)
   exact deliver_lib_registered s k.owner id r hL hA
+
+end Yow.Iq
+
+namespace Yow.Iq
+
+/-- A retry under the old id (re-issued after — or from inside the callback of — its reply) is registered
+    again and its own reply reaches the callbacks exactly like the first time. -/
+theorem retry_same_id_reply (s : St) (h : Inv s) (id : Nat) (hid : id ≤ s.next)
+    (hl : ∀ e ∈ s.layerReg, e.id ≠ id) (ha : ∀ e ∈ s.appReg, e.id ≠ id)
+    (k : Kind) (hk : k.complete = true) (a b r : Bool) :
+    (step s (.reReq id k a b)).2 = [.sent id] ∧
+    (step (step s (.reReq id k a b)).1 (.deliver id r)).2 =
+      [.layerCb k.owner id r, if (if r then a else b) then .appCb id r else .swallowed id] := by
+  have _ := h
+  obtain ⟨kr, ks, ke⟩ := complete_fields k hk
+  have e := step_reReq_of_guard s id k a b hid hl ha
+  rw [e]
+  refine ⟨rfl, ?_⟩
+  simp only [kr, ks, ke, if_true]
+  refine (deliver_app_registered _ k.owner id a b r ?_ ?_).1
+  · exact find_of_filter _ _ _ (by
+      simp only [List.filter_append]
+      rw [filter_fresh LayerEntry.id _ _ hl]
+      simp)
+  · exact find_of_filter _ _ _ (by
+      simp only [List.filter_append]
+      rw [filter_fresh AppEntry.id _ _ ha]
+      simp)
 
 end Yow.Iq
